@@ -55,7 +55,7 @@ def c13svc : Tok String := do
   let cache ← Tok.list Rec.parse
   let hist ← Tok.list parseHEntry
   let types ← Tok.list Tok.str
-  pure (resStr now (serviceQuery asciiLower cache now qu types hist))
+  pure (resStr now (serviceQuestions asciiLower cache now qu types hist))
 
 def c13req : Tok String := do
   let now ← Tok.int; let qu ← Tok.bool
